@@ -24,6 +24,7 @@ type Engine struct {
 	modsets   map[*ssa.Function]map[string]bool
 	modsetsM  map[*ssa.Function]*ModSet
 	prov      *provAnalysis
+	candCache map[string]map[CandKey]bool
 	implCache map[string][]*ssa.Function
 	specFuncs map[string]func(ev *Env, e *ECall) Value
 	funcIDs   map[string]int
@@ -274,6 +275,8 @@ type fx struct {
 	nq        int
 	unsupported []string
 	facetOK   func(facet string) bool
+	candActive map[CandKey]bool
+	candFail   map[CandKey]bool
 }
 
 func (fx *fx) heapSort(key string) string {
